@@ -64,7 +64,11 @@ def cases(draw, max_chroms=3, max_bins=5, max_chunks=9):
             "cols": draw(st.sampled_from([["count"], ["count", "x"]])),
             "form": draw(st.sampled_from(["frame", "dict"])),
             "temp": draw(st.sampled_from(["default", "default", "explicit"])),
-            "dest": draw(st.sampled_from(["", "::/g"]))}
+            "dest": draw(st.sampled_from(["", "::/g"])),
+            # extra bin columns must arrive in the output; row labels of the chunk frames carry no meaning (repeated
+            # labels are what pd.concat of several tables without ignore_index leaves behind)
+            "bins_extra": draw(st.sampled_from([None, None, "gc", "gc+mask"])),
+            "index_kind": draw(st.sampled_from(["range", "range", "repeated", "reversed", "zeros"]))}
 
 
 def check_unordered(case, ctx: Ctx):
@@ -90,7 +94,20 @@ def check_unordered(case, ctx: Ctx):
 
     def to_input(rs):
         df = pixel_frame(rs, ["count", "x"], {"count": "float64" if cdt == "float64" else "int64", "x": "float64"})
+        ik = case.get("index_kind", "range")
+        if ik == "repeated":
+            df.index = np.arange(len(df)) % max(1, (len(df) + 1) // 2)
+        elif ik == "reversed":
+            df.index = np.arange(len(df))[::-1]
+        elif ik == "zeros":
+            df.index = np.zeros(len(df), dtype=int)
         return df if case["form"] == "frame" else {k: df[k].to_numpy() for k in df.columns}
+
+    extra = None
+    if case.get("bins_extra"):
+        extra = {"gc": np.arange(n, dtype=float) / 8}
+        if case["bins_extra"] == "gc+mask":
+            extra["mask"] = (np.arange(n) % 3).astype("int8")
 
     work = ctx.tmpdir()
     tdir = work
@@ -110,7 +127,7 @@ def check_unordered(case, ctx: Ctx):
             kw[flag] = False
     try:
         before = sorted(os.listdir(tdir))
-        call("create_cooler(ordered=False)", cooler.create_cooler, uri, gen.bins_df(bt),
+        call("create_cooler(ordered=False)", cooler.create_cooler, uri, gen.bins_df(bt, extra=extra),
              iter([to_input(c) for c in chunks]), ordered=False, symmetric_upper=symmetric,
              mergebuf=case["mergebuf"], max_merge=case["max_merge"], ensure_sorted=case["ensure_sorted"],
              h5opts={"compression": None}, **kw)
@@ -134,6 +151,12 @@ def check_unordered(case, ctx: Ctx):
             probs = schema.validate(f["/g" if case["dest"] else "/"])
         check(not probs, lambda: f"output violates the schema: {probs[:3]}")
         check(clr.info["sum"] == sum(r[2] for r in want), f"sum attribute {clr.info['sum']}")
+        check(model.read_bins(clr) == model.bins_rows(bt), "bin table of the output differs from the one given")
+        bdf = clr.bins()[:]
+        for k_, v_ in (extra or {}).items():
+            check(k_ in bdf.columns and np.array_equal(bdf[k_].to_numpy(), v_) and bdf[k_].dtype == v_.dtype,
+                  lambda: f"extra bin column {k_!r} of the given bin table is missing or changed in the output (columns {list(bdf.columns)})")
+        check(set(bdf.columns) == {"chrom", "start", "end", *(extra or {})}, lambda: f"bin columns {list(bdf.columns)}")
     finally:
         ctx.clean(work)
     nonempty = [c for c in case["chunks"] if c]
@@ -153,7 +176,7 @@ def check_unordered(case, ctx: Ctx):
                           "emptychunk" if len(nonempty) < len(case["chunks"]) else "no-emptychunk",
                           f"mergebuf={case['mergebuf']}", "sym" if symmetric else "square",
                           "ensure_sorted" if case["ensure_sorted"] else "presorted", "shuffle=" + str(case["shuffle_within"]),
-                          "count=" + cdt, "checks-off=" + ("+".join(case.get("checks_off", [])) or "none")])
+                          "count=" + cdt, "bins-extra=" + str(case.get("bins_extra")), "labels=" + case.get("index_kind", "range"), "checks-off=" + ("+".join(case.get("checks_off", [])) or "none")])
 
 
 def check_big(case, ctx: Ctx):
